@@ -328,7 +328,7 @@ class DemeReward(LineageCountingReward, BlockCountingReward):
         """
         if isinstance(state_space, (LineageCountingStateSpace, BlockCountingStateSpace)):
             # get the index of the population
-            pop_index: int = state_space.epoch.pop_names.index(self.pop)
+            pop_index: int = state_space.lineage_config.pop_names.index(self.pop)
 
             # fraction of total lineages in the population
             fraction = (state_space.lineages.sum(axis=(1, 3))[:, pop_index] / state_space.lineages.sum(axis=(1, 2, 3)))
